@@ -957,7 +957,8 @@ def eliminate_join_marks(expression: exp.Expr) -> exp.Expr:
                 "Cannot determine which table to use in the new FROM clause"
             )
 
-            new_from_name = list[str](only_old_joins)[0]
+            # The first such table in the query's own order (a set's order varies between processes)
+            new_from_name = next(name for name in old_joins if name in only_old_joins)
             query.set("from_", exp.From(this=old_joins[new_from_name].this))
 
         if new_joins:
